@@ -181,32 +181,13 @@ func r03a(c *core.Ctx) {
 		early := core.Reach(hs, nil, core.IsReturn, func(in ssa.Instruction) bool { return in == ssa.Instruction(def) })
 		c.Check(early == nil, "serverReq-defer-first", def.Pos(), hs, "the guarantee is registered before any return of handleServerReq", "")
 	}
-	// mustHaveRespB never returns nil
+	// mustHaveRespB never returns nil: every returned value is pool-born and non-nil at the return (a fresh pool buffer,
+	// or the buffer of a pack function — or of a helper that passes one on — on the edge where its error is nil)
+	sum := bufFnSummaries(c)
 	for i, ret := range returnsOf(mh) {
 		rs := core.ReturnResults(ret)
-		ok := true
-		var desc []string
-		for _, o := range core.Origins(rs[0], core.OriginOpts{}) {
-			desc = append(desc, core.Expr(o))
-			switch x := o.(type) {
-			case *ssa.Call:
-				if core.CallName(x) != core.M("internal/pool.GetBuf") {
-					ok = false
-				}
-			case *ssa.Extract:
-				call, isCall := x.Tuple.(*ssa.Call)
-				n := ""
-				if isCall {
-					n = core.CallName(call)
-				}
-				if !(n == core.M("app/router.packResp") || n == core.M("app/router.packRespTCP")) || !(errOfCallNilAt(rs[0], ret.Block()) || errOfCallNilAt(o, ret.Block())) {
-					ok = false
-				}
-			default:
-				ok = false
-			}
-		}
-		c.Check(ok, fmt.Sprintf("mustHaveRespB-nonnil#%d", i+1), ret.Pos(), mh, "mustHaveRespB returns a packed buffer (pack result on its err == nil edge, or a fresh pool buffer): never nil", strings.Join(desc, "; "))
+		bi := bornOf(c, mh, rs[0], ret.Block(), sum, 0)
+		c.Check(bi.ok && !bi.maybeNil, fmt.Sprintf("mustHaveRespB-nonnil#%d", i+1), ret.Pos(), mh, "mustHaveRespB returns a packed buffer (pack result on its err == nil edge, or a fresh pool buffer): never nil", strings.Join(dedup(bi.why), "; "))
 	}
 	// packResp / packRespTCP: nil error => non-nil buffer
 	for _, n := range []string{"packResp", "packRespTCP"} {
@@ -214,19 +195,8 @@ func r03a(c *core.Ctx) {
 		if fn == nil {
 			continue
 		}
-		for i, ret := range returnsOf(fn) {
-			rs := core.ReturnResults(ret)
-			if !core.IsNilConst(rs[1]) {
-				continue
-			}
-			ok := true
-			for _, o := range core.Origins(rs[0], core.OriginOpts{}) {
-				if call, isCall := o.(*ssa.Call); !isCall || core.CallName(call) != core.M("internal/pool.GetBuf") {
-					ok = false
-				}
-			}
-			c.Check(ok, fmt.Sprintf("%s-success-nonnil#%d", n, i+1), ret.Pos(), fn, n+" returns a pool buffer whenever it returns a nil error", core.Expr(rs[0]))
-		}
+		sm := sum[fn]
+		c.Check(sm != nil && sm.born && (sm.neverNil || sm.nilOnErr), n+"-success-nonnil", fn.Pos(), fn, n+" returns a pool buffer whenever it returns a nil error", "")
 	}
 }
 
@@ -237,38 +207,100 @@ func r03b(c *core.Ctx) {
 		return
 	}
 	want := map[string]string{"ID": "m.Header.ID", "Response": "true", "OpCode": "m.Header.OpCode", "RecursionAvailable": "true", "RecursionDesired": "m.Header.RecursionDesired"}
-	for field, val := range want {
-		var st *ssa.Store
-		core.EachInstr(hm, func(_ *ssa.BasicBlock, _ int, in ssa.Instruction) {
+	// the header fix-up may be written in handleReqMsg itself or in a helper it calls with the response and the
+	// query: stores of a helper are read with its parameters replaced by the call's arguments
+	type fixSite struct {
+		anchor ssa.Instruction // the store, or the call of the helper, in handleReqMsg
+		fn     *ssa.Function
+		st     *ssa.Store
+		addr   string
+		val    string
+	}
+	substRoot := func(e string, sub map[string]string) string {
+		amp := strings.HasPrefix(e, "&")
+		body := strings.TrimPrefix(e, "&")
+		for p, a := range sub {
+			if body == p {
+				body = a
+				break
+			}
+			if strings.HasPrefix(body, p+".") {
+				body = a + body[len(p):]
+				break
+			}
+		}
+		if amp {
+			return "&" + body
+		}
+		return body
+	}
+	var sites []fixSite
+	collect := func(fn *ssa.Function, anchor ssa.Instruction, sub map[string]string) {
+		core.EachInstr(fn, func(_ *ssa.BasicBlock, _ int, in ssa.Instruction) {
 			s, ok := in.(*ssa.Store)
 			if !ok {
 				return
 			}
 			fa, ok := s.Addr.(*ssa.FieldAddr)
-			if !ok || core.FieldAddrRef(fa).Name != field {
+			if !ok {
 				return
 			}
-			if strings.HasPrefix(core.Expr(fa), "&rc.Response.Msg.Header.") {
-				st = s
+			a := anchor
+			if a == nil {
+				a = s
 			}
+			sites = append(sites, fixSite{a, fn, s, substRoot(core.Expr(fa), sub), substRoot(core.Expr(s.Val), sub)})
 		})
-		if st == nil {
+	}
+	collect(hm, nil, nil)
+	for _, call := range core.Calls(hm) {
+		h := core.StaticCallee(call)
+		if h == nil || h.Pkg != hm.Pkg || h == me || h.Blocks == nil {
+			continue
+		}
+		sub := map[string]string{}
+		args := core.CallArgs(call)
+		for k, p := range h.Params {
+			if k < len(args) {
+				sub[p.Name()] = core.Expr(args[k])
+			}
+		}
+		collect(h, call, sub)
+	}
+	for field, val := range want {
+		var fs *fixSite
+		for k := range sites {
+			si := &sites[k]
+			if core.FieldAddrRef(si.st.Addr.(*ssa.FieldAddr)).Name == field && strings.HasPrefix(si.addr, "&rc.Response.Msg.Header.") {
+				fs = si
+			}
+		}
+		if fs == nil {
 			c.Bad("fixup:"+field, hm.Pos(), hm, "handleReqMsg stores "+field+" into the chosen response's header", "no such store")
 			continue
 		}
-		c.Check(core.Expr(st.Val) == val, "fixup-value:"+field, st.Pos(), hm, "response header "+field+" = "+val, core.Expr(st.Val))
-		skip := core.Reach(hm, nil, core.IsReturn, func(in ssa.Instruction) bool { return in == ssa.Instruction(st) })
-		c.Check(skip == nil, "fixup-every-path:"+field, st.Pos(), hm, "the "+field+" fix-up lies on every path of handleReqMsg (whatever response was chosen)", "")
-		// nothing overwrites it afterwards in handleReqMsg
-		later := core.Reach(hm, st, func(in ssa.Instruction) bool {
+		st := fs.st
+		c.Check(fs.val == val, "fixup-value:"+field, st.Pos(), fs.fn, "response header "+field+" = "+val, fs.val)
+		skip := core.Reach(hm, nil, core.IsReturn, func(in ssa.Instruction) bool { return in == fs.anchor })
+		var skipH ssa.Instruction
+		if fs.fn != hm {
+			skipH = core.Reach(fs.fn, nil, core.IsReturn, func(in ssa.Instruction) bool { return in == ssa.Instruction(st) })
+		}
+		c.Check(skip == nil && skipH == nil, "fixup-every-path:"+field, st.Pos(), fs.fn, "the "+field+" fix-up lies on every path of handleReqMsg (whatever response was chosen)", "")
+		// nothing overwrites it afterwards
+		overwrites := func(in ssa.Instruction) bool {
 			s2, ok := in.(*ssa.Store)
-			if !ok {
+			if !ok || s2 == st {
 				return false
 			}
 			fa, ok := s2.Addr.(*ssa.FieldAddr)
 			return ok && core.FieldAddrRef(fa).Name == field && strings.Contains(core.Expr(fa), "Header.")
-		}, nil)
-		c.Check(later == nil, "fixup-final:"+field, st.Pos(), hm, "no later store overwrites "+field, "")
+		}
+		later := core.Reach(hm, fs.anchor, overwrites, nil)
+		if later == nil && fs.fn != hm {
+			later = core.Reach(fs.fn, st, overwrites, nil)
+		}
+		c.Check(later == nil, "fixup-final:"+field, st.Pos(), fs.fn, "no later store overwrites "+field, "")
 	}
 	// makeEmptyRespM: same five fields from m, and at most one question copied
 	got := map[string]string{}
@@ -956,6 +988,37 @@ func chanSendersNonNil(c *core.Ctx, fn *ssa.Function, t types.Type, contract map
 				return
 			}
 			for _, o := range core.Origins(sent, core.OriginOpts{}) {
+				// a helper that delivers its parameter: judged at its call sites
+				if par, isPar := o.(*ssa.Parameter); isPar && par.Parent() == f && f.Parent() == nil {
+					k, sites := -1, 0
+					for i, pp := range f.Params {
+						if pp == par {
+							k = i
+						}
+					}
+					for _, g := range c.SrcFuncs() {
+						for _, call := range core.Calls(g) {
+							if core.StaticCallee(call) != f {
+								continue
+							}
+							args := core.CallArgs(call)
+							if k < 0 || k >= len(args) {
+								continue
+							}
+							sites++
+							for _, oo := range core.Origins(args[k], core.OriginOpts{}) {
+								ok, w := nonNilMsg(c, g, oo, call.Block(), contract)
+								okAll = okAll && ok
+								why = append(why, "sender "+core.FuncName(f)+" called from "+core.FuncName(g)+": "+w)
+							}
+						}
+					}
+					if sites == 0 {
+						okAll = false
+						why = append(why, "sender "+core.FuncName(f)+": parameter with no static call site")
+					}
+					continue
+				}
 				ok, w := nonNilMsg(c, f, o, sb, contract)
 				okAll = okAll && ok
 				why = append(why, "sender "+core.FuncName(f)+": "+w)
